@@ -187,3 +187,11 @@ def hit_id(h):
 @spec
 def hit_key(h):
     return (0 - qscore_of(hit_score(h)), hit_id(h))
+
+
+# ---------------------------------------------------------------- C12: propagation
+
+@spec
+def node_tags(n):
+    """the tag list the seeder reads from a node: n.attrs.get("tags", [])"""
+    return n.attrs.get("tags", [])
